@@ -176,7 +176,14 @@ func replayS1(t *testing.T, spec s1Spec, path string) {
 	if known == nil {
 		known = knownFor(spec.Prop)
 	}
-	_, err = vh.RunScript(&f.Case, spec.Facets, known, spec.FinalQuiesce)
+	// The cache draws a random hash seed per instance (it decides eviction victims), so a script that
+	// failed once may need several attempts to fail again.
+	for attempt := 0; attempt < 50; attempt++ {
+		_, err = vh.RunScript(&f.Case, spec.Facets, known, spec.FinalQuiesce)
+		if err != nil && !errors.Is(err, vh.ErrAbort) {
+			break
+		}
+	}
 	if err != nil && !errors.Is(err, vh.ErrAbort) {
 		fmt.Printf("VERIF-VIOLATION property=%s test=%s replay=%s\n", spec.Prop, spec.Test, path)
 		t.Fatalf("%s: %v", spec.Prop, err)
